@@ -12,14 +12,15 @@ use crate::log::{guarded, Desc};
 use crate::prng::{hex, Rng};
 use crate::refmodel as R;
 
-enum RefH {
+#[derive(Clone)]
+pub enum RefH {
     B(R::blake::RefBlake),
     G(R::groestl::RefGroestl),
     J(R::jh::RefJh),
     S(R::threefish::RefSkein),
 }
 impl RefH {
-    fn new(id: &HashId) -> RefH {
+    pub fn new(id: &HashId) -> RefH {
         match id.fam {
             Fam::Blake => RefH::B(R::blake::RefBlake::new(id.bits)),
             Fam::Groestl => RefH::G(R::groestl::RefGroestl::new(id.bits)),
@@ -27,7 +28,7 @@ impl RefH {
             Fam::Skein => RefH::S(R::threefish::RefSkein::new(id.bits as usize / 8, id.out)),
         }
     }
-    fn update(&mut self, d: &[u8]) {
+    pub fn update(&mut self, d: &[u8]) {
         match self {
             RefH::B(x) => x.update(d),
             RefH::G(x) => x.update(d),
@@ -35,7 +36,7 @@ impl RefH {
             RefH::S(x) => x.update(d),
         }
     }
-    fn set_counter(&mut self, c: u128) {
+    pub fn set_counter(&mut self, c: u128) {
         match self {
             RefH::B(x) => x.set_counter(c),
             RefH::G(x) => x.set_counter(c as u64),
@@ -58,7 +59,7 @@ impl RefH {
             RefH::S(x) => x.pos & (u64::MAX as u128),
         }
     }
-    fn finalize(&self) -> Vec<u8> {
+    pub fn finalize(&self) -> Vec<u8> {
         match self {
             RefH::B(x) => x.finalize(),
             RefH::G(x) => x.finalize(),
@@ -108,7 +109,7 @@ fn exec_ff(cx: &mut Ctx, c: &FfCase) {
     let pre_len = if id.fam == Fam::Skein { (c.k + 1) * bs } else { c.k * bs };
     let pre = r.bytes(pre_len);
     let tail = r.bytes(c.tail);
-    let sigp = format!("C17|{}|{}", id.name(), api::profile());
+    let sigp = format!("{}|{}|{}", cx.prop, id.name(), api::profile());
     let mut m = RefH::new(&id);
     m.update(&pre);
     m.set_counter(c.c);
@@ -160,13 +161,33 @@ fn boundaries(id: &HashId) -> Vec<(u128, &'static str)> {
 }
 
 fn run_ff(cx: &mut Ctx, n: u64) {
-    let mut rng = cx.rng("C17ff");
     let menu = api::hashes15(64);
+    run_ff_menu(cx, n, &menu)
+}
+
+/// A boundary for the counter of `id` and a counter value a few blocks below it (used by other
+/// monitors to start a history "late" in a very long message).
+pub fn late_counter(rng: &mut Rng, id: &HashId) -> u128 {
+    let b = boundaries(id);
+    let (bd, _) = b[rng.below(b.len() as u64 - 1) as usize];
+    let bs = id.block_size() as u128;
+    let unit: u128 = match id.fam {
+        Fam::Blake => 8 * bs,
+        Fam::Groestl => 1,
+        Fam::Jh | Fam::Skein => bs,
+    };
+    bd - (1 + rng.below(3) as u128) * unit
+}
+
+/// Fast-forward cases for the given hash types (the digest monitors use this for a handful of
+/// "very long message" cases of their own family).
+pub fn run_ff_menu(cx: &mut Ctx, n: u64, menu: &[HashId]) {
+    let mut rng = cx.rng("C17ff");
     for i in 0..n {
-        let id = menu[((i + cx.shard) % 15) as usize];
+        let id = menu[((i + cx.shard) % menu.len() as u64) as usize];
         let bs = id.block_size() as u128;
         let b = boundaries(&id);
-        let (bd, label) = b[(i / 15 % b.len() as u64) as usize];
+        let (bd, label) = b[(i / menu.len() as u64 % b.len() as u64) as usize];
         let unit: u128 = match id.fam {
             Fam::Blake => 8 * bs, // counter units per block
             Fam::Groestl => 1,
